@@ -9,6 +9,9 @@ global size_of usize == 8;
 //@include prelude/inc_pwl_core.rs
 //@item src/tree/graph.rs | struct EdgeReference
 //@include prelude/inc_tree_edit.rs
+//@include prelude/tol_spec.rs
+//@include prelude/wit_core_spec.rs
+//@include prelude/wit_edit_spec.rs
 //@item src/tree/iter.rs | struct DfsNodeData | derive=Clone,Copy
 
 // ndarray's `==` on arrays: same shape and same elements (assumed; f64 equality read as equality of reals)
@@ -213,11 +216,14 @@ impl AffTree<2> {
         // ... and the tree never grows; surviving nodes keep their index
         forall|i: usize| final(self).a().dom().contains(i) ==> #[trigger] old(self).a().dom().contains(i),
         final(self).a().dom().len() <= old(self).a().dom().len(),
+        // C05 (caches through reduce): surviving nodes keep their values; a merged decision disappears from the paths below it, so witnesses that satisfied
+        // their path conditions up to 1e-8 before still do - for the (shorter) paths of the resulting tree
+        wit_inv(old(self).a(), old(self).a()) ==> wit_inv(final(self).a(), final(self).a()),
         // C08 (idempotence): a tree in which no decision below the root has two equal terminal children - what a run of reduce aims at - is left exactly as it is
         no_mergeable(old(self).a(), old(self).tree.root.unwrap()) ==> final(self).a() == old(self).a(),
 //@hint start
         let ghost rt = self.tree.root.unwrap();
-        proof { lemma_same_denotation_refl(self.a(), rt, self.in_dim); }
+        proof { lemma_same_denotation_refl(self.a(), rt, self.in_dim); lemma_emb_init(self.a()); }
 //@loop 1
             invariant
                 old(self).tree.wf(), old(self).tree.root == Some(rt), old(self).a().dom().len() <= i32::MAX,
@@ -226,6 +232,8 @@ impl AffTree<2> {
                 forall|i: usize| self.a().dom().contains(i) ==> #[trigger] old(self).a().dom().contains(i),
                 self.a().dom().len() <= old(self).a().dom().len(),
                 no_mergeable(old(self).a(), rt) ==> self.a() == old(self).a(),
+                wit_inv(old(self).a(), old(self).a()) ==> wit_inv(old(self).a(), self.a()), emb_inv(old(self).a(), self.a()),
+                forall|i: usize| #![trigger self.a()[i].value] self.a().dom().contains(i) ==> self.a()[i].value == old(self).a()[i].value,
                 0 <= __e <= elements@.len(),
             decreases elements@.len() - __e
 //@hint loop 1 start
@@ -242,11 +250,25 @@ impl AffTree<2> {
                             assert(count_some_from(am[value.index].children, 2) == 0);
                             assert(count_some_from(am[value.index].children, 1) == 0);
                             assert(count_some_from(am[value.index].children, 0) == 1);
+                            assert(remove_child_post(a0, am, value.index, 1, false));
+                            lemma_emb_removed(old(self).a(), a0, am, value.index, 1, false);
+                            if wit_inv(old(self).a(), old(self).a()) { lemma_wit_removed(old(self).a(), a0, am, value.index, 1, false); }
+                            assert forall|i: usize| #![trigger am[i].value] am.dom().contains(i) implies am[i].value == old(self).a()[i].value by { if i != value.index { assert(am[i] == a0[i]); } }
                         }
 //@hint after self.tree.merge_child_with_parent(value.index, 0).unwrap();
                         proof {
                             lemma_reduce_step(old(self).a(), a0, am, self.a(), rt, self.in_dim, value.index, left_idx, right_idx);
+                            let gl = choose|gl: int| merged(am, self.a(), value.index, 0, gl);
+                            lemma_emb_merged(old(self).a(), am, self.a(), value.index, 0, gl);
+                            if wit_inv(old(self).a(), old(self).a()) { lemma_wit_merged(old(self).a(), am, self.a(), value.index, 0, gl); }
+                            assert forall|i: usize| #![trigger self.a()[i].value] self.a().dom().contains(i) implies self.a()[i].value == old(self).a()[i].value by {
+                                let g = am[value.index].parent.unwrap();
+                                if i != g && i != left_idx { assert(self.a()[i] == am[i]); }
+                                assert(am.dom().contains(i));
+                            }
                         }
+//@hint loop 1 after
+        proof { if wit_inv(old(self).a(), old(self).a()) { lemma_wit_final(old(self).a(), self.a()); } }
 //@end
 }
 
